@@ -89,6 +89,12 @@ func genC05(repo string) (string, error) {
 			return "", err
 		}
 	}
+	// the election loop of a Local TSO Allocator: a live leader record of another member is WATCHED (never deleted or
+	// campaigned over), the next-leader key only decides who may campaign once there is no leader
+	elopt := goast.SkelOpt{Calls: set("CheckAllocatorLeader", "WatchAllocatorLeader", "getNextLeaderID", "getDCLocationInfoFromLeader", "campaignAllocatorLeader", "DeleteLeaderKey", "Campaign", "longSleep"), Conds: true, Branches: true}
+	if err := o.skeleton(am, "AllocatorManager", "allocatorLeaderLoop", "skel_am_allocatorLeaderLoop", elopt); err != nil {
+		return "", err
+	}
 	// a dc-location that loses its members: the allocator group is dropped in memory, nothing is removed from etcd
 	popt := goast.SkelOpt{Calls: set("SetUpAllocator", "deleteAllocatorGroup", "Reset", "cancel", "delete", "Commit", "LeaderTxn", "Delete", "OpDelete", "NewSlowLogTxn"), Conds: true, Branches: true}
 	for _, fn := range []string{"allocatorPatroller", "deleteAllocatorGroup"} {
